@@ -266,9 +266,14 @@ pub fn gen_envelope(rng: &mut Rng, f: &Features) -> EnvSpec {
     e.metadata = Some(rng.bytes(rng.clone().usize(30)));
   }
   if pct(rng, f.pointers) {
-    match rng.below(4) {
+    match rng.below(8) {
       0 => e.pointer = Some(rng.bytes(rng.clone().usize(11))),
       1 => e.pointer = Some(ord::Inscription::pointer_value(rng.below(5_000_000_000))),
+      // the first sat of some input: lands exactly where that input's own
+      // inscriptions (old and new) are
+      2..=4 => e.pointer_input = Some(rng.below(4) as u32),
+      // a few round positions, so that two pointers coincide
+      5 => e.pointer_permille = Some(*rng.pick(&[0u32, 250, 500, 750])),
       _ => e.pointer_permille = Some(rng.below(1300) as u32),
     }
   }
